@@ -46,11 +46,17 @@ type phase struct {
 type schedule struct {
 	Class  string
 	Phases []phase
+	// Corpus: the index keeps its in-memory corpus (as under perkeepd's search handler); lookups made
+	// while indexing (blob meta, deletions, signer ids) are then answered by the corpus, not by the rows.
+	Corpus bool
 }
 
 func (s *schedule) String() string {
 	var sb strings.Builder
 	sb.WriteString(s.Class + ":")
+	if s.Corpus {
+		sb.WriteString("(with corpus)")
+	}
 	for _, p := range s.Phases {
 		sb.WriteString("[")
 		for wi, wk := range p.Workers {
@@ -145,6 +151,7 @@ func drawSchedule(t *rapid.T, w *vworld.World, arriving []int) *schedule {
 	mode := rapid.SampledFrom([]string{"seq", "seq", "dup", "restart", "restart", "conc", "conc", "conc-restart"}).Draw(t, "mode")
 	storage := rapid.SampledFrom([]string{"coupled", "coupled", "first", "mixed"}).Draw(t, "storage")
 	s := &schedule{Class: orderClass + "/" + storage + "/" + mode}
+	s.Corpus = rapid.IntRange(0, 2).Draw(t, "withCorpus") == 0
 
 	// sequential event list
 	var ev []event
@@ -257,6 +264,11 @@ func run(w *vworld.World, s *schedule) outcome {
 		return outcome{err: err}
 	}
 	defer e.Release()
+	if s.Corpus {
+		if _, err := e.Ix.KeepInMemory(); err != nil {
+			return outcome{err: fmt.Errorf("KeepInMemory: %v", err)}
+		}
+	}
 	var mu sync.Mutex
 	var firstErr error
 	note := func(err error) {
@@ -293,6 +305,12 @@ func run(w *vworld.World, s *schedule) outcome {
 			if err := e.Restart(); err != nil {
 				note(fmt.Errorf("index.New over existing rows: %v", err))
 				break
+			}
+			if s.Corpus {
+				if _, err := e.Ix.KeepInMemory(); err != nil {
+					note(fmt.Errorf("KeepInMemory over existing rows: %v", err))
+					break
+				}
 			}
 		}
 	}
@@ -365,6 +383,9 @@ func compare(t interface{ Fatalf(string, ...any) }, w *world, s *schedule, canon
 
 func label(w *world, s *schedule) {
 	evid.R.Label("schedule/" + s.Class)
+	if s.Corpus {
+		evid.R.Label("schedule/index-with-in-memory-corpus")
+	}
 }
 
 func worldLabels(w *world) {
@@ -481,6 +502,7 @@ func TestAllPermutations(t *testing.T) {
 		worldLabels(w)
 		wh := w.Hash()
 		storeFirst := rapid.Bool().Draw(t, "storeFirst")
+		withCorpus := rapid.IntRange(0, 2).Draw(t, "withCorpus") == 0
 		restartAt := -1
 		if rapid.Bool().Draw(t, "withRestart") {
 			restartAt = rapid.IntRange(1, len(arriving)-1).Draw(t, "restartAt")
@@ -488,7 +510,7 @@ func TestAllPermutations(t *testing.T) {
 		nperm := 0
 		permutations(arriving, func(p []int) bool {
 			nperm++
-			s := &schedule{Class: "allperm/coupled"}
+			s := &schedule{Class: "allperm/coupled", Corpus: withCorpus}
 			var ev []event
 			if storeFirst {
 				s.Class = "allperm/storage-first"
